@@ -113,6 +113,19 @@ def cases(tier, seed):
     ]
     for t in multi:
         add(t, WORDS3, LEFTC, "m:")
+    # sums of three and more terms whose first / middle / last term hands its operand back unchanged (Identity, unit ScalarMul): an
+    # accumulation that aliases the operand is only visible from the third term on; all-real data so that no conjugation pass copies
+    isum = [
+        ["sum", ["identity", 2, F8], ["dense", 2, 2, F8], ["dense", 2, 2, F8]],
+        ["sum", ["identity", 3, F8], ["diag", 3, F8], ["tridiag", 3, F8], ["dense", 3, 3, F8]],
+        ["sum", ["dense", 2, 2, F8], ["identity", 2, F8], ["dense", 2, 2, F8]],
+        ["sum", ["identity", 2, F8], ["identity", 2, F8], ["dense", 2, 2, F8]],
+        ["sum", ["identity", 2, C16], ["dense", 2, 2, C16], ["dense", 2, 2, F8]],
+        ["sum", ["selfadj", 2, F8], ["identity", 2, F8], ["dense", 2, 2, F8]],
+        ["product", ["identity", 2, F8], ["sum", ["identity", 2, F8], ["dense", 2, 2, F8], ["diag", 2, F8]]],
+    ]
+    for t in isum:
+        add(t, WORDS2, LEFT + [["row2", C16]], "is:")
     # products of two wrappers of the same operator object (the A^T A / A^H A inference patterns and their look-alikes)
     for sub in (["tridiag", 2, C16], ["generic", ["dense", 2, 2, C16]], ["tridiag", 3, F8], ["generic", ["dense", 2, 3, C16]]):
         sq = tree_shape(sub)[0] == tree_shape(sub)[1]
